@@ -6,13 +6,13 @@ INVARIANT RefStable
 INVARIANT Refuses
 INVARIANT Emit
 CONSTANTS
-  MaxN = 3
-  PoolSel = "tiny"
+  MaxN = 4
+  PoolSel = "clash"
   Codes = {}
-  MaxRules = 1
-  RuleTypes = {1, 3, 4}
-  LigLens = {1, 2}
-  Kinds = {"ttf"}
-  TextSel = "none"
+  MaxRules = 0
+  RuleTypes = {1}
+  LigLens = {2}
+  Kinds = {"cff"}
+  TextSel = "A"
   Flags = FALSE
   Quiet = TRUE
